@@ -55,6 +55,14 @@ def unpack(x, n):
     return list(int(x).to_bytes(n, 'big'))
 
 
+def limbs(row):
+    """a long row as 8-byte limbs (Model/Des.v: unpack_limbs / pack_limbs)"""
+    row = [int(v) for v in row]
+    if len(row) <= 8:
+        return [pack(row)]
+    return [pack(row[i:i + 8]) for i in range(0, len(row), 8)]
+
+
 def rows2d(a, width):
     return np.ascontiguousarray(a).reshape(-1, width)
 
@@ -182,7 +190,7 @@ class PrimKind(Kind):
         shape_ok = list(r.shape) == want
         if r.dtype != np.uint8 or r.size != len(case['rows']) * width:
             return {'raised': 'BadResult', 'msg': f'dtype {r.dtype} shape {r.shape}'}
-        return {'rows': [pack(x) for x in rows2d(r, width).tolist()], 'shape': list(r.shape), 'shape_ok': bool(shape_ok),
+        return {'rows': [v for x in rows2d(r, width).tolist() for v in limbs(x)], 'shape': list(r.shape), 'shape_ok': bool(shape_ok),
                 'unchanged': bool((a == before).all())}
 
     def coq(self, case, obs):
@@ -263,7 +271,7 @@ class CipherKind(Kind):
     case_type = 'cipher_case'
     check_fn = 'cipher_check'
     explain_fn = 'cipher_expected'
-    shard = 36
+    shard = 20
     rule = ('scared.des.encrypt / decrypt as a sequence of calls on the same arrays: every at_des x at_round x after_step x mode x key '
             'form (8/16/24 key bytes, 128/256/384 round-key words) at least once per run, the four broadcasting shapes in rotation, '
             'defaults (None) of at_des / at_round / after_step, template-isolation sequences (a stop at steps 6/7/8 of round 15 followed '
@@ -341,8 +349,9 @@ class CipherKind(Kind):
 
     def coq(self, case, obs):
         stops = C.coq_list(case['stops'], lambda t: '(%s, %s, %s)' % (self._opt(t[0]), self._opt(t[1]), self._opt(t[2])))
-        return ('{| dc_dec := %s; dc_klen := %d; dc_keys := %s; dc_blocks := %s; dc_stops := %s%%nat; dc_obs := %s |}' % (
-            C.coq_bool(case['dec']), case['form'], C.coq_list(case['keys'], C.coq_n), C.coq_list(case['blocks'], C.coq_n),
+        keys = [limbs(unpack(k, case['form'])) for k in case['keys']]
+        return ('{| dc_dec := %s; dc_keys := %s; dc_blocks := %s; dc_stops := %s%%nat; dc_obs := %s |}' % (
+            C.coq_bool(case['dec']), C.coq_list(keys, lambda ls: C.coq_list(ls, C.coq_n)), C.coq_list(case['blocks'], C.coq_n),
             stops, C.coq_list(obs.get('rows', []), lambda r: C.coq_list(r, C.coq_n))))
 
     def oracle(self, case, obs):
